@@ -29,7 +29,14 @@ SCEN = {
     # wall clock = 39 (inside tick 9); 41 is in the future
     'Now': dict(AnchorTick=9, PointPos=[24, 29, 32, 36, 37, 41], TruncPos=[33, 37], QPos=[24, 29, 32, 37, 41],
                 QPairs=[(37, 37), (36, 36), (41, 41), (24, 32), (24, 41), (29, 37)], MaxTrunc=1),
+    # C19: wall clock = 39; with retention 2 / 3 / 5 ticks the acceptance bound now - retention is 31 / 27 / 19
+    'Retention': dict(Base='Now', AnchorTick=9, PointPos=[13, 20, 25, 28, 32, 37], TruncPos=[], QPos=[13, 20, 28, 37],
+                      QPairs=[(13, 13), (20, 25), (28, 28), (32, 37), (13, 37)], MaxTrunc=0),
 }
+
+
+def base_of(scen):
+    return SCEN[scen].get('Base', scen)
 
 
 def fmt_set(xs):
@@ -52,9 +59,9 @@ def cfg_from_template(ctx, template, overrides):
     return text + '\n'
 
 
-def scen_overrides(base, ph, extra=None):
-    sc = SCEN[base]
-    o = dict(Base=base, AnchorTick=sc['AnchorTick'], Ph2=ph[0], Ph3=ph[1], Ph5=ph[2], PointPos=sc['PointPos'],
+def scen_overrides(scen, ph, extra=None):
+    sc = SCEN[scen]
+    o = dict(Base=base_of(scen), AnchorTick=sc['AnchorTick'], Ph2=ph[0], Ph3=ph[1], Ph5=ph[2], PointPos=sc['PointPos'],
              TruncPos=sc['TruncPos'], QPos=sc['QPos'], QCodes=[100 * lo + hi for lo, hi in sc['QPairs']],
              MaxTrunc=sc['MaxTrunc'], D0=2, SGDs=[2, 3, 5], R0=0, Rets=[], CheckEnabled=False)
     if extra:
@@ -64,19 +71,20 @@ def scen_overrides(base, ph, extra=None):
 
 def calendar(ctx, binary, bases):
     """Ask the driver where the truncation grids fall for every (anchor, unit): {(base, unit): extra}."""
-    cases = [{'mode': 'phases', 'base': b, 'unit': u, 'anchorTick': SCEN[b]['AnchorTick']} for b in bases for u in UNITS]
-    res, _ = ctx.replay(binary, cases, procs=1, timeout=120)
+    cases = [{'mode': 'phases', 'base': base_of(b), 'unit': u, 'anchorTick': SCEN[b]['AnchorTick']} for b in bases for u in UNITS]
+    b_of = {id(c): b for c, b in zip(cases, [b for b in bases for u in UNITS])}
+    res, _ = ctx.replay(binary, cases, procs=1, timeout=300)
     out = {}
     for c, r in zip(cases, res):
         if not r.get('ok'):
             raise vlib.Inconclusive('driver could not compute the calendar facts: ' + str(r.get('msg')))
-        out[(c['base'], c['unit'])] = r.get('extra') or {}
+        out[(b_of[id(c)], c['unit'])] = r.get('extra') or {}
     return out
 
 
 def pick_units(ctx, cal, base, n):
     usable = [u for u in UNITS if cal[(base, u)].get('usable')]
-    if base == 'Now':   # prefer ticks in which the wall clock is far from both tick boundaries
+    if base_of(base) == 'Now':   # prefer ticks in which the wall clock is far from both tick boundaries
         usable.sort(key=lambda u: -cal[(base, u)]['margin_s'])
         usable = [u for u in usable if cal[(base, u)]['margin_s'] >= 300] or usable[:1]
     if not usable:
@@ -120,7 +128,7 @@ def generate(ctx, base, unit, ph, variant, extra, budget, store_every=25):
     """One Gen run -> replay cases (sampled by seed when above budget). Returns (cases, total)."""
     o = scen_overrides(base, ph, extra)
     cfg = cfg_from_template(ctx, f'ShardGroups.Gen_{ctx.tier}.cfg', o)
-    g = ctx.tlc_must_pass('ShardGroups', cfg, timeout=1500, dump=True, workers=4, tag=f'gen-{base}-{unit}-{variant}', count=False)
+    g = ctx.tlc_must_pass('ShardGroups', cfg, timeout=3000, dump=True, workers=min(4, vlib.NCPU), tag=f'gen-{base}-{unit}-{variant}', count=False)
     hs = list(iter_histories(g.dump_path, o['MaxOps']))
     os.remove(g.dump_path)
     total = len(hs)
@@ -130,9 +138,15 @@ def generate(ctx, base, unit, ph, variant, extra, budget, store_every=25):
     sc = SCEN[base]
     cases = []
     for i, h in enumerate(hs):
-        cases.append({'mode': 'replay', 'base': base, 'unit': unit, 'anchorTick': sc['AnchorTick'], 'ph': ph,
+        cases.append({'mode': 'replay', 'base': base_of(base), 'unit': unit, 'anchorTick': sc['AnchorTick'], 'ph': ph,
                       'd0': o['D0'], 'r0': o['R0'], 'qpairs': sorted(sc['QPairs'], key=lambda p: 100 * p[0] + p[1]),
                       'store': 'bolt' if i % store_every == 0 else 'inmem', 'jitter': (ctx.seed + i) % 12, 'steps': h})
+    save = os.environ.get('VERIF_SAVE_CASES')   # debugging aid: keep the generated cases (e.g. to re-run a driver by hand)
+    if save:
+        os.makedirs(save, exist_ok=True)
+        with open(os.path.join(save, f'{ctx.id}-{base}-{unit}-{variant}.ndjson'), 'w') as f:
+            for c in cases:
+                f.write(json.dumps(c, separators=(',', ':')) + '\n')
     return cases, total
 
 
@@ -151,7 +165,7 @@ def run_family(ctx, bases, mc_extra, gen_variants, actions, n_units):
         ph = cal[(base, unit)]['ph']
         o = scen_overrides(base, ph, mc_extra(base))
         cfg = cfg_from_template(ctx, f'ShardGroups.MC_{ctx.tier}.cfg', o)
-        r = ctx.tlc_must_pass('ShardGroups', cfg, timeout=1500, coverage=True, workers=4, tag=f'mc-{base}-{unit}', count=False)
+        r = ctx.tlc_must_pass('ShardGroups', cfg, timeout=3000, coverage=True, workers=min(4, vlib.NCPU), tag=f'mc-{base}-{unit}', count=False)
         acts = [a for a in actions(base) if not (a == 'Truncate' and o['MaxTrunc'] == 0)]
         ctx.check_coverage(r, acts)
         for variant, extra, budget in gen_variants(base):
@@ -160,11 +174,11 @@ def run_family(ctx, bases, mc_extra, gen_variants, actions, n_units):
                 totals[f'{base}/{unit}/{variant}'] = {'histories': total, 'replayed': len(cases), 'phases_2_3_5': ph}
                 if len(cases) < total:
                     sampled.append(f'{base}/{unit}/{variant}')
-                res, lines = ctx.replay(binary, cases, procs=8, timeout=1500)
+                res, lines = ctx.replay(binary, cases, procs=min(8, vlib.NCPU), timeout=3000)
                 ctx.absorb(res, lines)
 
     jobs = [(b, u) for b in bases for u in pick_units(ctx, cal, b, n_units)]
-    with ThreadPoolExecutor(max_workers=4) as ex:
+    with ThreadPoolExecutor(max_workers=max(1, vlib.NCPU // 4)) as ex:
         futs = [ex.submit(pipeline, b, u) for b, u in jobs]
         errs = []
         for f in futs:
@@ -172,10 +186,11 @@ def run_family(ctx, bases, mc_extra, gen_variants, actions, n_units):
                 f.result()
             except vlib.Inconclusive as e:
                 errs.append(str(e))
-    if errs:
-        raise vlib.Inconclusive(' | '.join(errs)[:3000])
     ctx.states = sum(r['distinct'] for r in ctx.tlc_runs)
     ctx.transitions = sum(r['generated'] for r in ctx.tlc_runs)
+    if errs and not ctx.divergences:
+        raise vlib.Inconclusive(' | '.join(errs)[:3000])
+    ctx.infra += [e[:500] for e in errs]      # a divergence already found is reported even if another pipeline failed
     ctx.exhaustive = not sampled
     ctx.extra_cov['per_anchor_unit_variant'] = totals
     return totals
@@ -183,8 +198,21 @@ def run_family(ctx, bases, mc_extra, gen_variants, actions, n_units):
 
 # ------------------------------------------------------------------------------------------------ C18
 
+def replay_saved(ctx, adapter):
+    """./check <id> --replay <path>: run exactly the stored case on the current tree."""
+    with open(ctx.replay_path) as f:
+        saved = json.load(f)
+    binary = ctx.go_build(adapter)
+    res, lines = ctx.replay(binary, [saved['case']], procs=1, timeout=600)
+    ctx.absorb(res, lines)
+    ctx.states = ctx.transitions = 1       # nothing model-checked in this mode
+    ctx.rule = 'replay of one stored case'
+
+
 def run(ctx):
     quick = ctx.tier == 'quick'
+    if getattr(ctx, 'replay_path', None):
+        return replay_saved(ctx, 'sg')
 
     def mc_extra(base):
         return dict(R0=0, Rets=[], CheckEnabled=False)
@@ -194,8 +222,10 @@ def run(ctx):
         if quick:
             return [('single', dict(common, MaxBatch=1, MaxOps=4, MaxWrites=3), 6000),
                     ('batch', dict(common, MaxBatch=2, MaxOps=3, MaxWrites=2, MaxTrunc=0), 4000)]
-        return [('single', dict(common, MaxBatch=1, MaxOps=5, MaxWrites=4), 40000),
-                ('batch', dict(common, MaxBatch=2, MaxOps=4, MaxWrites=3), 40000)]
+        deep = {'Min': [9, 12, 16, 21], 'Max': [37, 36, 32, 28], 'Epoch': [24, 25, 20, 28], 'Now': [37, 36, 32, 41]}[base]
+        return [('single', dict(common, MaxBatch=1, MaxOps=4, MaxWrites=3), None),
+                ('batch', dict(common, MaxBatch=2, MaxOps=3, MaxWrites=2), None),
+                ('deep', dict(common, MaxBatch=1, MaxOps=5, MaxWrites=4, PointPos=deep, MaxTrunc=0), 30000)]
 
     def actions(base):
         return ['Write', 'Reload', 'SetSGD', 'Truncate']
